@@ -165,7 +165,32 @@ fn judge_int<T: IntT>(chk: &Check, cnt: &Cnt, how: &str, math: Option<i128>, r: 
     }
 }
 
+/// A value-tree NODE that is a newtype wrapper around `D`: whatever the visitor is asked for, the
+/// deserializer answers `visit_newtype_struct(inner)` (what a self-describing value tree with a
+/// Newtype node does). A hand-written visitor that forwards the inner value into the raw
+/// representation without its range check shows here and nowhere else.
+struct NewtypeNode<D>(D);
+impl<'de, D: serde::Deserializer<'de>> serde::Deserializer<'de> for NewtypeNode<D> {
+    type Error = D::Error;
+    fn deserialize_any<V: serde::de::Visitor<'de>>(self, visitor: V) -> Result<V::Value, D::Error> {
+        visitor.visit_newtype_struct(self.0)
+    }
+    serde::forward_to_deserialize_any! {
+        bool i8 i16 i32 i64 i128 u8 u16 u32 u64 u128 f32 f64 char str string bytes byte_buf option unit unit_struct newtype_struct seq tuple
+        tuple_struct map struct enum identifier ignored_any
+    }
+}
+
 fn ints_for<T: IntT>(chk: &Check, cnt: &Cnt, tier: Tier) {
+    // a Newtype node around every u16 value, a few u8 / i64 ones, and nested twice
+    for v in 0..=65535u16 {
+        judge_int::<T>(chk, cnt, &format!("Newtype({}u16)", v), Some(v as i128), catch(|| T::deserialize(NewtypeNode(U16Deserializer::<DeErr>::new(v)))));
+        if v < 256 {
+            judge_int::<T>(chk, cnt, &format!("Newtype({}u8)", v), Some(v as i128), catch(|| T::deserialize(NewtypeNode(U8Deserializer::<DeErr>::new(v as u8)))));
+            judge_int::<T>(chk, cnt, &format!("Newtype(Newtype({}u16))", v), Some(v as i128), catch(|| T::deserialize(NewtypeNode(NewtypeNode(U16Deserializer::<DeErr>::new(v))))));
+            judge_int::<T>(chk, cnt, &format!("Newtype({}i64)", -(v as i64)), Some(-(v as i128)), catch(|| T::deserialize(NewtypeNode(I64Deserializer::<DeErr>::new(-(v as i64))))));
+        }
+    }
     // non-human-readable front end: every u8 / u16 / i16 value and the wide boundary values
     for v in 0..=65535u16 {
         judge_int::<T>(chk, cnt, &format!("{}u16 (not human readable)", v), Some(v as i128), catch(|| T::deserialize(nh::NH(U16Deserializer::<DeErr>::new(v)))));
